@@ -128,7 +128,10 @@ fn issue(ctx: &mut Context, call: &Call) -> Result<(ExprRef, Option<String>), Pa
             let r = if *signed { ctx.sign_extend(*e, *by) } else { ctx.zero_extend(*e, *by) };
             if *by == 0 { (r, None) } else { (r, Some(format!("ext{}|{:?}|{}", signed, e, by))) }
         }
-        Call::Ite(c, a, b) => (ctx.ite(*c, *a, *b), Some(format!("ite|{:?}|{:?}|{:?}", c, a, b))),
+        Call::Ite(c, a, b) => {
+            let kind = if a.get_type(ctx).is_array() { "aite" } else { "ite" };
+            (ctx.ite(*c, *a, *b), Some(format!("{}|{:?}|{:?}|{:?}", kind, c, a, b)))
+        }
         Call::Store(a, i, d) => {
             (ctx.array_store(*a, *i, *d), Some(format!("store|{:?}|{:?}|{:?}", a, i, d)))
         }
@@ -180,9 +183,8 @@ fn readback(ctx: &Context, r: ExprRef) -> String {
         Expr::BVSlice { e, hi, lo } => format!("slice|{:?}|{}|{}", e, hi, lo),
         Expr::BVZeroExt { e, by, .. } => format!("extfalse|{:?}|{}", e, by),
         Expr::BVSignExt { e, by, .. } => format!("exttrue|{:?}|{}", e, by),
-        Expr::BVIte { cond, tru, fals } | Expr::ArrayIte { cond, tru, fals } => {
-            format!("ite|{:?}|{:?}|{:?}", cond, tru, fals)
-        }
+        Expr::BVIte { cond, tru, fals } => format!("ite|{:?}|{:?}|{:?}", cond, tru, fals),
+        Expr::ArrayIte { cond, tru, fals } => format!("aite|{:?}|{:?}|{:?}", cond, tru, fals),
         Expr::ArrayStore { array, index, data } => format!("store|{:?}|{:?}|{:?}", array, index, data),
         Expr::ArrayConstant { e, index_width, .. } => format!("aconst|{:?}|{}", e, index_width),
         Expr::BVArrayRead { array, index, .. } => format!("read|{:?}|{:?}", array, index),
@@ -245,6 +247,16 @@ impl Model {
                 }
             } else {
                 return Err(Failure::new("context/literal-not-a-literal", format!("{:?} returned {:?}", call, ctx[r])));
+            }
+        }
+        if let Some(k) = key.as_ref() {
+            // the node that was built must be the node that was asked for (kind and operands)
+            let rb = readback(ctx, r);
+            if rb != *k && !matches!(call, Call::Symbol(..) | Call::Lit(..)) {
+                return Err(Failure::new(
+                    format!("context/built-node-differs/{}", kind),
+                    format!("{:?} should build `{}` but the returned reference reads back as `{}`", call, k, rb),
+                ));
             }
         }
         match key {
@@ -407,6 +419,15 @@ fn gen_call(t: &mut Tape, m: &Model) -> Call {
         }
         7 => {
             let c = of_width(t, m, 1);
+            // array-valued if-then-else as well (its result joins the array pool, so nested array ites
+            // in the then- and the else-position arise)
+            if let (Some(c), true) = (c, !m.arrs.is_empty() && t.chance(110)) {
+                let (a, iw, dw) = m.arrs[t.below(m.arrs.len() as u32) as usize];
+                let same: Vec<ExprRef> =
+                    m.arrs.iter().filter(|(_, i, d)| *i == iw && *d == dw).map(|(e, _, _)| *e).collect();
+                let b = same[t.below(same.len() as u32) as usize];
+                return if t.flag() { Call::Ite(c, a, b) } else { Call::Ite(c, b, a) };
+            }
             let (a, w) = pick_bv(t, m);
             let b = of_width(t, m, w).unwrap_or(a);
             match c {
